@@ -56,27 +56,38 @@ def run(R, env):
         elif cls == "admin-or-monitor":
             hctx = handler_ctx(prog, dctx, arm)
 
+            mon = lambda s_: any(loaded_field(prog, x, "config", ["monitors"], CRATE) for x in subterms(s_))
+
             def is_monitor_any(t):
-                if t[0] != "call" or not t[1].endswith("Iterator::any"):
-                    return None
-                src, clo = t[2][0], t[2][1]
-                if not any(loaded_field(prog, s, "config", ["monitors"], CRATE) for s in subterms(src)):
-                    return None
-                res = closure_result(prog, clo, params={2: ("elem", "monitors")})
-                if res is None or res[0] != "call" or res[1] not in EQ:
-                    return None
-                a, b = res[2][0], res[2][1]
-                if (a == ("elem", "monitors") and is_sender(b)) or (b == ("elem", "monitors") and is_sender(a)):
-                    return EQ[res[1]]
+                # info.sender is one of config.monitors, in any membership spelling
+                m = membership(prog, t, mon, lambda e_: is_sender(e_))
+                return m
+
+            def is_admin_bool(t):
+                # boolean spellings of the admin test: ADMIN.is_admin(deps, &info.sender)? / .unwrap_or(false) / assert_admin(..).is_ok()
+                x = t
+                if x[0] == "call" and x[1] in ("std::result::Result::unwrap_or",) and len(x[2]) == 2 and x[2][1] == ("const", "bool", False):
+                    x = x[2][0]
+                if x[0] == "payload":
+                    x = shared.unwrap_payload(x)
+                if x[0] == "call" and x[1] == "cw_controllers::Admin::is_admin" and ns_of(prog, x[2][0]) == "admin" and item_crate(x[2][0]) == CRATE and len(x[2]) >= 3 and is_sender(x[2][2]):
+                    return True
                 return None
 
-            G3 = Guard("admin-or-monitor", subject=G.subject, boolean=is_monitor_any)
+            def either(t):
+                r = is_admin_bool(t)
+                return r if r is not None else is_monitor_any(t)
+
+            G3 = Guard("admin-or-monitor", subject=G.subject, boolean=either)
             found = []
             ok, off = arm_guarded(prog, dctx, arm, G3, env.depth, found)
             R.ob("C08.R3", v, ok, "success exit reachable by a sender that is neither admin nor monitor: %s" % (off,), loc=off[0]["loc"] if off else None, fn=hk, found=found)
-            hows = set(f["how"] for f in found)
-            R.ob("C08.R3", v + ":both-alternatives", "direct" in hows and "bool" in hows, "expected one assert_admin test and one monitor-membership test, found %s" % sorted(hows), fn=hk)
-            # with only the admin alternative cut the handler must still succeed (monitors are allowed)
+            # each alternative alone grants access (a monitor that is not the admin can halt, and the admin can)
+            from engine.analysis import success_exits
+            w_mon = hctx.assume((G.subject, ("ok", False)), (None, lambda t_: (False if is_admin_bool(t_) else None)), (None, lambda t_: (True if is_monitor_any(t_) is True else (False if is_monitor_any(t_) is False else None)))).settle()
+            w_adm = hctx.assume((G.subject, ("ok", True)), (None, lambda t_: (True if is_admin_bool(t_) else None)), (None, lambda t_: (False if is_monitor_any(t_) is True else (True if is_monitor_any(t_) is False else None)))).settle()
+            R.worlds += 2
+            R.ob("C08.R3", v + ":both-alternatives", bool(success_exits(w_mon)) and bool(success_exits(w_adm)), "halting is not open to both the admin (%s) and a monitor that is not the admin (%s)" % (bool(success_exits(w_adm)), bool(success_exits(w_mon))), fn=hk)
         elif cls == "nominee":
             shared.accept_ownership(R, env, prog, CRATE, dctx, arm, "C08.R4")
         elif cls and cls.startswith("hook:"):
